@@ -231,10 +231,10 @@ def _wf_clauses(h: Heap, T, tag: str | None = None, pending=None) -> dict:
                   nbi != DNONE, nbd != DNONE, h.dalloc(nbi), h.dalloc(nbd), nbi != nbd, Or(cls_of(T) == CLS["Tree"], cls_of(T) == CLS["TypedTree"], cls_of(T) == CLS["FileSystemTree"]),
                   cls_of(root) == If(cls_of(T) == CLS["TypedTree"], CLS["_SystemRootTypedNode"], CLS["_SystemRootNode"]))
     attached = (lambda x: BoolVal(True)) if pending is None else (lambda x: x != pending)
-    c["S2"] = ForAll([n], Implies(mem(n), And(inP(h._parent(n)), h.alloc(n), Implies(attached(n), And(0 <= h.pos(n), h.pos(n) < h.clen(h._parent(n)), h.child(h._parent(n), h.pos(n)) == n)),
+    c["S2"] = ForAll([n], Implies(mem(n), And(inP(h._parent(n)), h._parent(n) != n, h.alloc(n), Implies(attached(n), And(0 <= h.pos(n), h.pos(n) < h.clen(h._parent(n)), h.child(h._parent(n), h.pos(n)) == n)),
                                                cls_of(n) == If(cls_of(T) == CLS["TypedTree"], CLS["TypedNode"], CLS["Node"]))), patterns=[h._parent(n), h._tree(n), h.pos(n)])
     c["S3"] = ForAll([p, i], Implies(And(inP(p), 0 <= i, i < h.clen(p)), And(mem(h.child(p, i)), h._parent(h.child(p, i)) == p, h.pos(h.child(p, i)) == i)), patterns=[h.litem(ch(p), i)])
-    c["S4"] = ForAll([n], Implies(mem(n), And(h.rank(n) == h.rank(h._parent(n)) + 1, h.rank(n) >= 1)), patterns=[h.rank(n)])
+    c["S4"] = ForAll([n], Implies(mem(n), And(h.rank(n) == h.rank(h._parent(n)) + 1, h.rank(n) >= 1)), patterns=[h.rank(n), h._parent(n)])
     c["S5"] = And(
         ForAll([p, q], Implies(And(inP(p), inP(q), p != q, ch(p) != LNONE), ch(p) != ch(q)), patterns=[z3.MultiPattern(ch(p), ch(q))]),
         ForAll([p], Implies(And(inP(p), ch(p) != LNONE), h.lalloc(ch(p))), patterns=[ch(p)]),
